@@ -194,14 +194,24 @@ func checkStaticRefs(c *Ctx, r *gtfs.Static, m *feedModel) {
 	}
 }
 
+// c03WithOption: scenarios that also run under InheritWheelchairBoarding set this before c03Run
+// (the option walks and reads the parent links the property is about).
+var c03WithOption bool
+
 func c03Run(c *Ctx, m *feedModel, nontrivial bool, desc string) {
 	tagRows(m)
 	b := renderFeed(m, presentation{})
-	c.Input(hash64(string(b)), nontrivial, func() string { return desc + "\n" + m.text() })
+	inherit := false
+	if c03WithOption {
+		c03WithOption = false
+		inherit = c.Free("inherit_wheelchair_boarding", 2) == 1
+		desc += fmt.Sprintf(" inherit=%v", inherit)
+	}
+	c.Input(hash64(string(b)+fmt.Sprint(inherit)), nontrivial, func() string { return desc + "\n" + m.text() })
 	// every library map range starts at the same rotation (0, 1 or 2): each site sees every start
 	// for maps of <= 3 entries, without multiplying the sites with each other
 	c.SetMapRotation(c.Free("map_rotation", 3))
-	r, err, ok := parseStaticGuarded(c, b, gtfs.ParseStaticOptions{})
+	r, err, ok := parseStaticGuarded(c, b, gtfs.ParseStaticOptions{InheritWheelchairBoarding: inherit})
 	c.SetMapMode(mapFixed)
 	if !ok {
 		return
@@ -429,6 +439,7 @@ func c03Rings(c *Ctx) {
 		t.set(r, "stop_id", id)
 		t.set(r, "parent_station", parent)
 		t.set(r, "location_type", "")
+		t.set(r, "wheelchair_boarding", "")
 	}
 	for i := 0; i < tail; i++ { // tail stops first: t0 -> t1 -> ... -> ring member 0
 		parent := fmt.Sprintf("t%d", i+1)
@@ -446,6 +457,7 @@ func c03Rings(c *Ctx) {
 	}
 	// keep stop_times / transfers resolvable or not: they are irrelevant here
 	c.Witness("long_parent_chain_or_ring")
+	c03WithOption = true
 	c03Run(c, m, true, fmt.Sprintf("stops: shape %d (0 ring, 1 ring with tail, 2 chain) of %d stops, tail %d", shape, n, tail))
 }
 
@@ -513,8 +525,12 @@ func c03Growth(c *Ctx) {
 			pid, _ := st.get(r-1, "stop_id")
 			st.set(r, "parent_station", pid)
 			st.set(r, "location_type", map[int]string{1: "0", 2: "4"}[r%3])
+			if (r/3)%2 == 0 {
+				st.set(r, "wheelchair_boarding", "") // to be inherited when the option is on
+			}
 		}
 	}
+	c03WithOption = true
 	if c.Free("children_listed_first", 2) == 1 {
 		for i, j := 0, len(st.Rows)-1; i < j; i, j = i+1, j-1 {
 			st.Rows[i], st.Rows[j] = st.Rows[j], st.Rows[i]
@@ -528,7 +544,7 @@ func init() {
 	register(&Check{
 		ID:    "C03",
 		Level: "model_checking",
-		Rule: "full products per table: stops 0..3 rows (thorough 0..4) x stop_id {'',S1,S2,S3} x parent {'',S1,S2,S3,SX}; routes 0..3 x agency_id {'',A,B,AX} x 6 agency configurations (single, two, duplicate ids, blank ids); trips 0..2 (thorough 3) x route/service/shape alphabets x duplicate route ids; stop_times 0..2 (thorough 3) x trip {T1,'',T2,TX} x stop {S1,'',SX,S2} x duplicate trip ids; transfers 0..3 (quick 2) x from/to alphabets x duplicate stop ids; map iteration starts 0, 1, 2 applied uniformly to every library range; plus <= 2 deviations over all id / reference cells of an 18-table-row feed parent rings / rings with a tail / chains of up to 40 stops, trips over (route, service) pairs whose concatenations collide, and a growth sweep 1..40, 64, 65, 129, 257, 513, 1025 rows per table with three-level stop hierarchies throughout (parents first / children first); " +
+		Rule: "full products per table: stops 0..3 rows (thorough 0..4) x stop_id {'',S1,S2,S3} x parent {'',S1,S2,S3,SX}; routes 0..3 x agency_id {'',A,B,AX} x 6 agency configurations (single, two, duplicate ids, blank ids); trips 0..2 (thorough 3) x route/service/shape alphabets x duplicate route ids; stop_times 0..2 (thorough 3) x trip {T1,'',T2,TX} x stop {S1,'',SX,S2} x duplicate trip ids; transfers 0..3 (quick 2) x from/to alphabets x duplicate stop ids; map iteration starts 0, 1, 2 applied uniformly to every library range; plus <= 2 deviations over all id / reference cells of an 18-table-row feed parent rings / rings with a tail / chains of up to 40 stops, trips over (route, service) pairs whose concatenations collide, and a growth sweep 1..40, 64, 65, 129, 257, 513, 1025 rows per table with three-level stop hierarchies throughout (parents first / children first), with and without InheritWheelchairBoarding (as the rings and chains); " +
 			"non-trivial = distinct archives with at least two rows in the table under study (or any deviation); oracle = pointer-identity / named-id / forest invariants",
 		Assumptions: []string{"each result entity is traced to its row through a free-text column carrying the row number", "a route that names no agency may be linked only when there is exactly one agency"},
 		Scenarios: func(tier string) []*Scenario {
